@@ -670,7 +670,11 @@ class JSONRPCConnection:
             request_ids.append(request_id)
             results.append(item.result)
 
-        ordered = sorted(zip(request_ids, results), key=lambda t: t[0])
+        try:
+            ordered = sorted(zip(request_ids, results), key=lambda t: t[0])
+        except TypeError:
+            # IDs of unorderable types; our batch IDs are all integers
+            raise ProtocolError.invalid_request('response to unsent batch') from None
         ordered_ids, ordered_results = zip(*ordered)
         if ordered_ids not in self._requests:
             raise ProtocolError.invalid_request('response to unsent batch')
